@@ -445,7 +445,7 @@ theorem lstep_guard_persist (G : Lock) (S : Nat → Lock) (s s' : LState) (e : L
     split at hs
     · injection hs with hs; subst hs; exact ⟨hh, hc⟩
     · cases hs
-  | use _ _ =>
+  | use _ _ _ =>
     simp only [lstep] at hs; injection hs with hs; subst hs; exact ⟨hh, hc⟩
 
 theorem lrun_guard_persist (G : Lock) (S : Nat → Lock) (t : Thread) (o : Nat) (m : Lock)
@@ -501,11 +501,100 @@ def staleTrace : List LEv :=
   [ .sync (.acq 1 (0, 0)), .lookup 1 7, .sync (.rel 1 (0, 0)),          -- reader: snapshot under G
     .sync (.acq 2 (0, 0)), .sync (.acq 2 (1, 7)), .clear 2 7,            -- scheduler: unload under G and S
     .sync (.rel 2 (1, 7)), .sync (.rel 2 (0, 0)),
-    .sync (.acq 1 (1, 7)), .use 1 7 ]                                     -- reader: use under S only
+    .sync (.acq 1 (1, 7)), .use 1 7 0 ]                                     -- reader: use under S only
 
 theorem stale_pointer_witness :
     ((lrun (0, 0) (fun o => (1, o)) LState.init staleTrace).map (fun s => s.cleared 7)) = some true := by
   decide
+
+/-! ## The stale-pointer RULE is sound for every history
+
+  The two theorems above are about one pointer in one trace.  Here they are lifted to the static
+  rule: if a fact table has no stale read (`staleReads … = []`), then in EVERY enabled history
+  whose `use` events instantiate the table's facts — a `live` fact's use comes after a `lookup` by
+  the same thread that has kept the registry lock since, a `valid` fact's use comes after a
+  `check` by the same thread that has kept the object's lock since — no `use` event ever happens
+  on an object that has been torn down.  Fresh objects and the holder ordering (C01) enter as the
+  explicit hypothesis `Other` / `hother`. -/
+
+theorem lrun_append (G : Lock) (S : Nat → Lock) (s : LState) (l1 l2 : List LEv) :
+    lrun G S s (l1 ++ l2) = (lrun G S s l1).bind (fun s' => lrun G S s' l2) := by
+  induction l1 generalizing s with
+  | nil => simp [lrun]
+  | cons e es ih =>
+    simp only [List.cons_append, lrun]
+    cases lstep G S s e with
+    | none => simp
+    | some s' => simpa using ih s'
+
+/-- `t` found `o` in the registry somewhere in `pre` and has kept the registry lock `G` since -/
+def LiveAt (G : Lock) (pre : List LEv) (t : Thread) (o : Nat) : Prop :=
+  ∃ p1 mid, pre = p1 ++ LEv.lookup t o :: mid ∧ (∀ e ∈ mid, LKeeps t G e) ∧ (∀ e ∈ mid, e ≠ .clear t o)
+
+/-- `t` re-checked `o` somewhere in `pre` and has kept the object's lock `S o` since -/
+def ValidAt (S : Nat → Lock) (pre : List LEv) (t : Thread) (o : Nat) : Prop :=
+  ∃ p1 mid, pre = p1 ++ LEv.check t o :: mid ∧ (∀ e ∈ mid, LKeeps t (S o) e) ∧ (∀ e ∈ mid, e ≠ .clear t o)
+
+theorem liveAt_not_cleared (G : Lock) (S : Nat → Lock) (s0 s : LState) (pre : List LEv) (t : Thread) (o : Nat)
+    (hrun : lrun G S s0 pre = some s) (h : LiveAt G pre t o) : s.cleared o = false := by
+  obtain ⟨p1, mid, rfl, hk, hs⟩ := h
+  rw [lrun_append] at hrun
+  cases h1 : lrun G S s0 p1 with
+  | none => rw [h1] at hrun; simp at hrun
+  | some s1 =>
+    rw [h1] at hrun
+    exact live_pointer_not_torn_down G S s0 s1 s p1 mid t o h1 (by simpa using hrun) hk hs
+
+theorem validAt_not_cleared (G : Lock) (S : Nat → Lock) (s0 s : LState) (pre : List LEv) (t : Thread) (o : Nat)
+    (hrun : lrun G S s0 pre = some s) (h : ValidAt S pre t o) : s.cleared o = false := by
+  obtain ⟨p1, mid, rfl, hk, hs⟩ := h
+  rw [lrun_append] at hrun
+  cases h1 : lrun G S s0 p1 with
+  | none => rw [h1] at hrun; simp at hrun
+  | some s1 =>
+    rw [h1] at hrun
+    exact validated_pointer_not_torn_down G S s1 s mid t o (by simpa using hrun) hk hs
+
+/-- every `use` event of `tr` instantiates a fact of the table: a used read of a cleared class whose
+    `live` / `valid` flags mean what the translator claims (continuity of the hold since the lookup /
+    re-check), and whose `init` / holder exemption is the named hypothesis `Other` -/
+def UseConforms (facts : List Access) (cleared : List Nat) (holderHb : Nat) (G : Lock) (S : Nat → Lock)
+    (Other : List LEv → Thread → Nat → Prop) (tr : List LEv) : Prop :=
+  ∀ pre t o f post, tr = pre ++ LEv.use t o f :: post →
+    ∃ a, facts[f]? = some a ∧ a.kind = .read ∧ cleared.contains a.cls = true ∧ a.use = true ∧
+      (a.live = true → LiveAt G pre t o) ∧ (a.valid = true → ValidAt S pre t o) ∧
+      ((a.init = true ∨ a.hb.contains holderHb = true) → Other pre t o)
+
+/-- **No use of a torn-down object, for every history.**  A table without stale reads, any
+    enabled history conforming to it, any `use` event in it: the object is not torn down at that
+    point.  (`Gr`/`Sr` = the static names of the registry / object lock; `hother` = fresh objects
+    are not in the registry yet, and the holder ordering of C01.) -/
+theorem stale_rule_sound (facts : List Access) (cleared : List Nat) (holderHb : Nat) (Gr Sr : LockRef)
+    (G : Lock) (S : Nat → Lock) (Other : List LEv → Thread → Nat → Prop)
+    (hrule : staleReads facts cleared holderHb Gr Sr = [])
+    (hother : ∀ pre t o s, lrun G S LState.init pre = some s → Other pre t o → s.cleared o = false)
+    (tr : List LEv) (hconf : UseConforms facts cleared holderHb G S Other tr)
+    (pre post : List LEv) (t : Thread) (o f : Nat) (htr : tr = pre ++ LEv.use t o f :: post)
+    (s : LState) (hrun : lrun G S LState.init pre = some s) :
+    s.cleared o = false := by
+  obtain ⟨a, ha, hk, hc, hu, hlive, hvalid, hoth⟩ := hconf pre t o f post htr
+  have ham : a ∈ facts := List.mem_of_getElem? ha
+  have hns : staleRead facts cleared holderHb Gr Sr a = false := by
+    cases hst : staleRead facts cleared holderHb Gr Sr a with
+    | false => rfl
+    | true =>
+      have : (a.cls, a.site) ∈ staleReads facts cleared holderHb Gr Sr := by
+        unfold staleReads
+        exact List.mem_map.mpr ⟨a, List.mem_filter.mpr ⟨ham, hst⟩, rfl⟩
+      rw [hrule] at this; cases this
+  unfold staleRead at hns
+  simp only [hk, hc, hu, beq_self_eq_true, Bool.true_and, Bool.not_eq_false',
+    Bool.or_eq_true, Bool.and_eq_true] at hns
+  rcases hns with ((h | h) | h) | h
+  · exact liveAt_not_cleared G S LState.init s pre t o hrun (hlive h.1)
+  · exact validAt_not_cleared G S LState.init s pre t o hrun (hvalid h.1)
+  · exact hother pre t o s hrun (hoth (Or.inl h))
+  · exact hother pre t o s hrun (hoth (Or.inr h))
 
 /-! ## Witnesses -/
 
@@ -538,5 +627,33 @@ theorem unlocked_reader_races :
     checkClass badFacts 0 = false ∧ violatingPairs badFacts = [(0, 0, 1)] ∧
     (run Holder.init racyTrace).isSome = true := by
   refine ⟨by decide, by decide, by decide⟩
+
+/-- non-vacuity of `stale_rule_sound`: a table with one `live` read of a cleared class has no
+    stale read, and the history "take the registry lock, find object 7, use it" is enabled and
+    conforms to it (with the empty `Other` hypothesis) -/
+def liveFacts : List Access := [{ rd 0 0 [⟨0, false⟩] 1 with live := true }]
+def liveTrace : List LEv := [.sync (.acq 1 (0, 0)), .lookup 1 7, .use 1 7 0]
+
+example : staleReads liveFacts [0] 1 ⟨0, false⟩ ⟨1, true⟩ = [] ∧
+    (lrun (0, 0) (fun o => (1, o)) LState.init liveTrace).isSome = true ∧
+    UseConforms liveFacts [0] 1 (0, 0) (fun o => (1, o)) (fun _ _ _ => False) liveTrace := by
+  refine ⟨by decide, by decide, ?_⟩
+  intro pre t o f post h
+  match pre, h with
+  | [], h => simp [liveTrace] at h
+  | [_], h => simp [liveTrace] at h
+  | [e1, e2], h =>
+    simp only [liveTrace, List.cons_append, List.nil_append, List.cons.injEq, LEv.use.injEq] at h
+    obtain ⟨rfl, rfl, ⟨rfl, rfl, rfl⟩, _⟩ := h
+    refine ⟨liveFacts[0], rfl, rfl, by decide, rfl, ?_, ?_, ?_⟩
+    · intro _
+      exact ⟨[.sync (.acq 1 (0, 0))], [], rfl, by simp, by simp⟩
+    · intro hv; exact absurd hv (by decide)
+    · intro hv; exact absurd hv (by decide)
+  | _ :: _ :: _ :: _, h => simp [liveTrace] at h
+
+/-- and the rule is needed: the same table without the `live` flag has a stale read, and
+    `staleTrace` above is an enabled history in which the use sees the object torn down -/
+example : staleReads [rd 0 0 [⟨1, true⟩] 1] [0] 1 ⟨0, false⟩ ⟨1, true⟩ = [(0, 0)] := by decide
 
 end OllamaVerif.Lockset
